@@ -1,7 +1,7 @@
 ---------------------------- MODULE MC_AlgArith ----------------------------
 (* AlgArith => layer 1 on a boundary domain of operand pairs; one state per (context, signs, x, y). *)
 EXTENDS AlgArith
-CONSTANTS NMax, FloorFix, FlipFix, Lvl
+CONSTANTS NMax, FloorFix, FlipFix, RemSign, Lvl
 VARIABLES st, ctx, xneg, yneg, xn, xe, yn, ye
 vars == <<st, ctx, xneg, yneg, xn, xe, yn, ye>>
 Ns == (0..NMax) \cup {49, 50, 51, 99, 100, 101, 150, 500}
@@ -16,7 +16,8 @@ Y == [f |-> FIN, n |-> yneg, c |-> FromInt(yn), e |-> ye]
 InfD(s) == [f |-> INF, n |-> s, c |-> <<>>, e |-> 0]
 FlInt(s) == (IF F_OVF \in s THEN F_OVF ELSE 0) + (IF F_UNF \in s THEN F_UNF ELSE 0) + (IF F_INEXACT \in s THEN F_INEXACT ELSE 0)
           + (IF F_SUBN \in s THEN F_SUBN ELSE 0) + (IF F_ROUNDED \in s THEN F_ROUNDED ELSE 0) + (IF F_CLAMPED \in s THEN F_CLAMPED ELSE 0)
-          + (IF F_INVALID \in s THEN F_INVALID ELSE 0)
+          + (IF F_INVALID \in s THEN F_INVALID ELSE 0) + (IF F_DIVUNDEF \in s THEN F_DIVUNDEF ELSE 0)
+          + (IF F_DIVZERO \in s THEN F_DIVZERO ELSE 0) + (IF F_DIVIMP \in s THEN F_DIVIMP ELSE 0)
 GotOf(a) == [f |-> a.f, n |-> a.n, c |-> a.c, e |-> a.e, cs |-> 1]
 RefinesOp(op, w, a) ==
    /\ ValueOK(w, GotOf(a))
@@ -32,6 +33,22 @@ CmpRefines == st = 1 =>
                          /\ AlgCmpP(InfD(s), X, FlipFix) = CmpSpec(InfD(s), X)
                          /\ AlgCmpP(InfD(s), InfD(yneg), FlipFix) = CmpSpec(InfD(s), InfD(yneg))
    /\ AlgCmpP(X, Y, FlipFix) = -AlgCmpP(Y, X, FlipFix)                                              \* antisymmetry, directly on the algorithm
+DivRefines == st = 1 =>
+   /\ RefinesOp("quoint", Spec_QuoInt(ctx, X, Y), AlgQuoInt(ctx, X, Y))
+   /\ RefinesOp("rem", Spec_Rem(ctx, X, Y), AlgRemP(ctx, X, Y, RemSign))
+   /\ \A s \in BOOLEAN :
+        /\ RefinesOp("quoint", Spec_QuoInt(ctx, X, InfD(s)), AlgQuoInt(ctx, X, InfD(s)))
+        /\ RefinesOp("quoint", Spec_QuoInt(ctx, InfD(s), Y), AlgQuoInt(ctx, InfD(s), Y))
+        /\ RefinesOp("rem", Spec_Rem(ctx, X, InfD(s)), AlgRemP(ctx, X, InfD(s), RemSign))
+        /\ RefinesOp("rem", Spec_Rem(ctx, InfD(s), Y), AlgRemP(ctx, InfD(s), Y, RemSign))
+   \* the division identity on the algorithm's own outputs, when both are finite and nothing was rounded away
+   /\ LET q == AlgQuoInt(ctx, X, Y)  r == AlgRemP(ctx, X, Y, TRUE) IN
+      (q.f = FIN /\ r.f = FIN /\ F_INEXACT \notin r.fl /\ SignD(Y) # 0) =>
+          LET m == IF xe < ye THEN xe ELSE ye
+              lhs == MulPow10(X.c, xe - m)                              \* |x| at exponent m
+              qy == MulPow10(Mul(q.c, Y.c), ye - m)                     \* |q*y| at exponent m
+              rr == MulPow10(r.c, r.e - m)
+          IN r.e >= m /\ lhs = Add(qy, rr) /\ CmpMag(r.c, r.e, Y.c, ye) < 0
 \* the unary entry points: once per x (y at its first value)
 UnaryRefines == (st = 1 /\ yn = 0 /\ ye = 0 /\ ~yneg) =>
    /\ \A op \in {"abs", "neg", "round"} : RefinesOp(op, Want(op, ctx, X, X, 0), AlgUnary(ctx, X, op))
